@@ -863,6 +863,13 @@ TxDelegate(cfg, s, ev) ==
                      w4 == SetDeleg(cfg, w3, d, v, Max2(old, 0) + amt)
                  IN Tx(s, VerifySuper(cfg, w4, v, d, FALSE, IF old >= 0 THEN old ELSE -1))
 
+\* RemoveValidatorTokensAndShares at the end of x/staking Unbond: an UNBONDED validator that nobody delegates to any more is
+\* removed (hook AfterValidatorRemoved: the x/node hook finds no delegator left and clears the process-global)
+TakeFromVal(cfg, w, val, amt) ==
+    IF val.status = 1 /\ val.shares = amt
+    THEN VerifySuper(cfg, [w EXCEPT !.vals = Del(@, "v", val.v)], val.v, "", FALSE, -1)
+    ELSE [w EXCEPT !.vals = Put(@, "v", [val EXCEPT !.shares = @ - amt, !.tokens = @ - amt])]
+
 UnbondHs(w, d, v) == LET r == SelectSeq(w.unbond, LAMBDA u : u.d = d /\ u.v = v) IN IF r = <<>> THEN <<>> ELSE r[1].hs
 TxUndelegate(cfg, s, ev) ==
     LET w0 == Work(s)  d == ev.creator  v == ev.val  amt == ev.amount IN
@@ -878,7 +885,7 @@ TxUndelegate(cfg, s, ev) ==
                   \* hooks run BEFORE the validator's shares are reduced
                   w2 == IF left = 0 THEN SetDeleg(cfg, VerifySuper(cfg, w1, v, d, TRUE, old), d, v, -1)
                         ELSE VerifySuper(cfg, SetDeleg(cfg, w1, d, v, left), v, d, FALSE, old)
-                  w3 == [w2 EXCEPT !.vals = Put(@, "v", [ValOf(s, v) EXCEPT !.shares = @ - amt, !.tokens = @ - amt])]
+                  w3 == TakeFromVal(cfg, w2, ValOf(s, v), amt)
                   w4 == IF ValOf(s, v).status = 3 THEN Send(w3, "m_bonded_tokens_pool", "m_not_bonded_tokens_pool", amt) ELSE w3
               IN Tx(s, w4)
 
@@ -898,7 +905,7 @@ TxRedelegate(cfg, s, ev) ==
         left == old - amt
         w2 == IF left = 0 THEN SetDeleg(cfg, VerifySuper(cfg, w1, src, d, TRUE, old), d, src, -1)
               ELSE VerifySuper(cfg, SetDeleg(cfg, w1, d, src, left), src, d, FALSE, old)
-        w3 == [w2 EXCEPT !.vals = Put(@, "v", [ValOf(s, src) EXCEPT !.shares = @ - amt, !.tokens = @ - amt])]
+        w3 == TakeFromVal(cfg, w2, ValOf(s, src), amt)
         \* Delegate to dst (tokens stay in the bonded pool when both validators are bonded)
         oldDst == DelegShares(w3, d, dst)
         w4 == IF oldDst >= 0 THEN [w3 EXCEPT !.vol = VolOf(oldDst, d, dst)] ELSE w3
@@ -907,9 +914,38 @@ TxRedelegate(cfg, s, ev) ==
               ELSE w4
         w6 == [w5 EXCEPT !.vals = Put(@, "v", [ValOf(w5, dst) EXCEPT !.shares = @ + amt, !.tokens = @ + amt])]
         w7 == VerifySuper(cfg, SetDeleg(cfg, w6, d, dst, Max2(oldDst, 0) + amt), dst, d, FALSE, IF oldDst >= 0 THEN oldDst ELSE -1)
-        w8 == [w7 EXCEPT !.redel = SelectSeq(@, LAMBDA x : ~(x.d = d /\ x.src = src /\ x.dst = dst))
-                                   \o <<[d |-> d, src |-> src, dst |-> dst, n |-> RedelN(s, d, src, dst) + 1]>>]
+        \* (stake that leaves an UNBONDED validator is free at once: no redelegation entry is kept - unless the validator
+        \* was removed by this very withdrawal: getBeginInfo then does not find it and falls back to the full waiting time)
+        w8 == IF ValOf(s, src).status = 1 /\ Has(w7.vals, "v", src) THEN w7
+              ELSE [w7 EXCEPT !.redel = SelectSeq(@, LAMBDA x : ~(x.d = d /\ x.src = src /\ x.dst = dst))
+                                        \o <<[d |-> d, src |-> src, dst |-> dst, n |-> RedelN(s, d, src, dst) + 1]>>]
     IN Tx(s, w8)
+
+\* ------------------------------------------------------------------ x/staking end-blocker: the active validator set
+\* ApplyAndReturnValidatorSetUpdates: the cfg.maxVals validators of highest consensus power (tokens / 10^6; equal power:
+\* lower operator address first; power 0 never) form the active set. A validator that enters it is bonded (hook
+\* AfterValidatorBonded), in power order; then the bonded ones that are no longer in it begin unbonding, in operator-address
+\* order (hook AfterValidatorBeginUnbonding). Both hooks of x/node re-verify every delegator of that validator and clear the
+\* process-global. The validator's tokens move between the two staking pools. Unbonding takes three weeks: no validator (and
+\* no unbonding delegation) matures in the modelled world, nobody is jailed or slashed.
+PowerOf(v) == v.tokens \div 1000000
+ValsByPower(cfg, w) ==
+    SetToSortSeq({v \in Rng(w.vals) : PowerOf(v) > 0},
+                 LAMBDA a, b : PowerOf(a) > PowerOf(b) \/ (PowerOf(a) = PowerOf(b) /\ IndexOf(cfg.vals, a.v) < IndexOf(cfg.vals, b.v)))
+TopVals(cfg, w) == LET c == ValsByPower(cfg, w) IN SubSeq(c, 1, Min2(cfg.maxVals, Len(c)))
+ActiveSet(cfg, w) == {v.v : v \in Rng(TopVals(cfg, w))}
+StakingPending(cfg, w) == \E i \in 1..Len(w.vals) : (w.vals[i].status = 3) # (w.vals[i].v \in ActiveSet(cfg, w))
+StakingEnd(cfg, w) ==
+    IF ~StakingPending(cfg, w) THEN w
+    ELSE
+    LET act == ActiveSet(cfg, w)
+        entering == SelectSeq(TopVals(cfg, w), LAMBDA v : v.status # 3)
+        leaving == SelectSeq(w.vals, LAMBDA v : v.status = 3 /\ v.v \notin act)       \* w.vals is in operator-address order
+        bond(acc, v) == VerifySuper(cfg, [Send(acc, "m_not_bonded_tokens_pool", "m_bonded_tokens_pool", v.tokens)
+                                             EXCEPT !.vals = Put(@, "v", [v EXCEPT !.status = 3])], v.v, "", FALSE, -1)
+        unbond(acc, v) == VerifySuper(cfg, [Send(acc, "m_bonded_tokens_pool", "m_not_bonded_tokens_pool", v.tokens)
+                                               EXCEPT !.vals = Put(@, "v", [v EXCEPT !.status = 2])], v.v, "", FALSE, -1)
+    IN FoldLeft(unbond, FoldLeft(bond, w, entering), leaving)
 
 \* ------------------------------------------------------------------ blocks
 \* sao/keeper HandleTimeoutOrder
@@ -985,9 +1021,10 @@ HandleExpiredShard(cfg, w, sid) ==
                           (ShardOf(w2, rest[j]).order = o.id \/ \E q \in 1..Len(ShardOf(w2, rest[j]).renew) : ShardOf(w2, rest[j]).renew[q].order = o.id)
             IN IF own THEN SetOrder(w2, [o EXCEPT !.shards = rest]) ELSE DelOrder(w2, o.id)
 
-\* EndBlock at the current height (sao -> node -> model), in app.go's order
-EndBlock(cfg, w) ==
-    LET tids == SchedIds(w.timeoutQ, w.h)
+\* EndBlock at the current height (staking -> sao -> node -> model), in app.go's order
+EndBlock(cfg, w00) ==
+    LET w == StakingEnd(cfg, w00)
+        tids == SchedIds(w.timeoutQ, w.h)
         w1 == FoldLeft(LAMBDA acc, id : HandleTimeoutOrder(cfg, acc, id), w, tids)
         w2 == IF Has(w.timeoutQ, "h", w.h) THEN [w1 EXCEPT !.timeoutQ = SchedDelEntry(@, w.h)] ELSE w1
         sids == SchedIds(w2.expShardQ, w2.h)
@@ -1039,6 +1076,7 @@ NextScheduled(cfg, w) ==
     LET hs == {w.timeoutQ[i].h : i \in 1..Len(w.timeoutQ)} \cup {w.expShardQ[i].h : i \in 1..Len(w.expShardQ)}
               \cup {w.expData[i].h : i \in 1..Len(w.expData)}
               \cup {w.nodes[i].alive + cfg.offlineTrigger + 1 : i \in {j \in 1..Len(w.nodes) : w.nodes[j].status % 2 = 1}}
+              \cup (IF StakingPending(cfg, w) THEN {w.h} ELSE {})      \* the validator set is brought up to date at the next end-block
         fut == {x \in hs : x >= w.h}
     IN IF fut = {} THEN -1 ELSE MinOf(fut)
 
